@@ -37,7 +37,7 @@ ASSUMPTIONS = [
 ]
 
 Q = ["qlevel", "qpresent", "qdtr0", "qstatus"]
-N = ["dapc", "off", "reset", "dtcmd"]
+N = ["dapc", "off", "reset", "dtcmd", "dtcmd", "dtquery"]
 
 
 def in_flight_at(case, obs, t):
@@ -179,6 +179,30 @@ def judge_loss(case, obs):
         if present_at_end and not failed and obs["_connected_at_end"] is False:
             out.append(("C17:%s:never-reconnects" % drv, "device back since t=%.3f, 'failed' never reported, but the driver is still "
                         "disconnected at t=%.1f; status log %r" % (restores[-1], obs["t_end"], obs["status_log"][-4:])))
+    # ---- a (re)sent device-type command carries its ENABLE DEVICE TYPE prefix on the connection it is written to:
+    #      the retry after a loss must repeat the prefix, the gear behind the reconnected gateway has not seen it
+    need = {}
+    for cspec in case["callers"]:
+        for c in cspec["cmds"]:
+            if c["k"] in ("sleep", "progress"):
+                continue
+            cmd = sc.build_cmd(c)
+            if cmd.devicetype:
+                need[sc.frame_key(cmd)] = cmd.devicetype
+    prev = None
+    for w in obs["wire_all"]:
+        if w["kind"] == "open":
+            prev = None
+        elif w["kind"] == "send":
+            key = (w["bits"], w["value"])
+            if key in need and prev != (16, 0xC100 | need[key]):
+                out.append(("C17:%s:devicetype-prefix-missing-after-reconnect" % drv,
+                            "device-type command %d:%#x was written at t=%.3f %s, not directly after ENABLE DEVICE TYPE %d on the "
+                            "same connection" % (key[0], key[1], w["t"] - 1000.0,
+                                                 "as the first frame after a (re)open" if prev is None else "after frame %r" % (prev,),
+                                                 need[key])))
+                break
+            prev = key
     # ---- handshake repeated before any command after each (re)open (Tridonic)
     if drv == "tridonic":
         state = None
@@ -282,7 +306,7 @@ def loss_case(draw, driver=None):
         kind = draw(st.sampled_from(["send", "send", "seq"]))
         cmds = [_cmd(draw, 2 + ci * 9 + j, Q + N) for j in range(1 if kind == "send" else draw(st.integers(1, 3)))]
         callers.append({"kind": kind, "cmds": cmds, "t0": draw(st.sampled_from([0.0, 0.0, 0.01, 0.03, 0.06, 0.5, 1.2, 2.5]))})
-    t_loss = draw(st.sampled_from([0.0, 0.0005, 0.01, 0.02, 0.03, 0.045, 0.06, 0.09, 0.2]))
+    t_loss = draw(st.sampled_from([0.0, 0.0005, 0.01, 0.02, 0.03, 0.04, 0.045, 0.05, 0.06, 0.07, 0.09, 0.2]))
     how = draw(st.sampled_from(["error", "eof", "silent", "write_fails"]))
     events = []
     if how == "write_fails":
